@@ -75,6 +75,24 @@ def gen_cases(tier, seed):
             yield dict(case, twice=True)
     for k in (1, 2, 3):
         yield {'mode': 'slots', 'k': k}
+    # scale: many listeners of one event, a callback drops listeners that
+    # the dispatch has not reached yet
+    for k in (40, 70, 100):
+        for owner in OWNERS:
+            for i in (0, 1, k // 2):
+                yield {'k': k, 'hashes': list(range(k)), 'owner': owner,
+                       'drops': [{'when': i, 'victim': 3,
+                                  'how': 'clear' if owner != 'bare' else 'del',
+                                  'many': owner == 'bare'}]}
+    # re-entrancy: a callback re-dispatches the same event, and only after
+    # that nested dispatch has returned a listener disappears
+    for k in (2, 3, 4):
+        for owner in OWNERS:
+            for how in HOWS[owner]:
+                for i in range(k):
+                    yield {'k': k, 'hashes': list(range(k)), 'owner': owner,
+                           'nested_first': True,
+                           'drops': [{'when': i, 'victim': 1, 'how': how}]}
     n = 300 if tier == 'quick' else 16 * 10000
     for i in range(n):
         rng = random.Random(f'C10/{seed}/{tier}/{i}')
@@ -181,7 +199,9 @@ def _run_case(case):
         alive = [u for u in range(k) if u not in dropped and u != runner_uid]
         if not alive and how != 'clear':
             return
-        if how == 'clear':
+        if spec.get('many'):
+            victims = alive[::2]
+        elif how == 'clear':
             # the world lets go of everything, the running handler included
             victims = alive + ([runner_uid] if runner_uid is not None else [])
         else:
@@ -213,6 +233,13 @@ def _run_case(case):
         state['count'] += 1
         spec = inside.get(i)
         if spec is not None and token == 1:
+            if case.get('nested_first'):
+                # nested dispatch of the same event (its deliveries carry
+                # another token), then the drop
+                res.tags['nested_dispatch_before_drop'].add(True)
+                state['count'] = 10 ** 6
+                d.dispatch('ev', 3)
+                state['count'] = i + 1
             do_drop(spec, self.uid)
 
     def make_class(uid, base):
@@ -296,6 +323,31 @@ def _run_case(case):
         d.dispatch('ev', 2)
         res.stats['dispatches_checked'] += 1
         check_dispatch(res, log, 2, k, set(dropped), set(dropped))
+        # new handlers created after the old ones were collected (CPython
+        # readily reuses their addresses) must be registered and served
+        if owner == 'bare' and dropped:
+            fresh = []
+            for n in range(len(dropped) + 1):
+                obj = classes[0].__new__(classes[0])
+                obj.uid = 1000 + n
+                obj.hval = 50 + n
+                d.add_handler(obj)
+                fresh.append(obj)
+            state['token'] = 4
+            d.dispatch('ev', 4)
+            got4 = collections.Counter(e[1] for e in log if e[2] == 4)
+            res.stats['dispatches_checked'] += 1
+            for obj in fresh:
+                if got4.get(obj.uid, 0) != 1 or not d.is_handler(obj):
+                    res.div(4, 'new-handler-not-served', 'a handler created '
+                            'and registered after others were collected was '
+                            'not registered / not served exactly once',
+                            1, got4.get(obj.uid, 0),
+                            is_handler=d.is_handler(obj))
+                    break
+            for obj in fresh:
+                d.remove_handler(obj)
+            del fresh, obj
         for uid in range(k):
             obj = refs[uid]()
             if uid in dropped or obj is None:
